@@ -6,10 +6,12 @@
 //                     channel position the selected per-channel operation, abstracted by `view`, equals the
 //                     standard's table `spec_frame_channel_blend` / `spec_patch_channel_blend`, and the alpha
 //                     planes handed in are the ones the operation will read.                       [complete]
-//   (2) kernels       blend_single: for every abstract operation, on base / new grids of up to 2x2 samples with
-//                     symbolic geometry and symbolic FINITE binary32 samples, every sample inside the blended
-//                     rectangle equals spec_blend_pixel bit for bit and every other sample of the base buffer
-//                     (including stride padding) is unchanged.               [bounded geometry, complete over values]
+//   (2) kernels       blend_single on base / new grids of up to 2x2 samples (row stride 2), symbolic FINITE binary32 samples.
+//                     Arithmetic-free kernels (kReplace, kept channel, kBlend / kMulAdd without alpha) and kAdd: ALL
+//                     geometries inside the bound, every sample inside the blended rectangle equals spec_blend_pixel
+//                     bit for bit, every other sample of the base buffer (incl. stride padding) is unchanged.
+//                     Other arithmetic kernels: fixed list of geometries, frame condition bit-exact, values pinned to
+//                     the standard's formulas at the exact points (fall-back, see "Arithmetic kernels" below).
 // `view` is also asserted on the modes the kernel harnesses construct, so both layers speak about the same thing.
 use super::*;
 
@@ -410,16 +412,29 @@ fn kernel_skip_contract() {
     kernel_contract(any_blend(SpecOp::Keep), false, None);
 }
 
-// Arithmetic kernels. Symbolic geometry together with float arithmetic does not close in CBMC (measured: > 10 min
-// per kernel even for the corner cases alone), so the arithmetic kernels are checked on a fixed list of concrete
-// geometries that exercise every loop shape (0, 1 and 2 iterations per axis), non-zero and unequal offsets on both
-// sides and grids narrower than the stride; flags, canvas-alpha presence and all sample values stay symbolic and
-// EVERY position of the base buffer is checked. The loop / index structure itself is proved for all geometries on the
-// arithmetic-free kernels above.
-const GEOMETRIES: [Geo; 3] = [
+// Arithmetic kernels. Measured limits of CBMC here (see the report): (i) symbolic geometry together with float
+// arithmetic does not close (> 10 min per kernel even for single-formula checks); (ii) bit-exact comparison of the kernel
+// with spec_blend_pixel means proving two separately built binary32 multiplier / divider circuits equivalent, which
+// closes only for addition. Therefore:
+//   * kAdd (and kMulAdd without alpha) ARE compared bit for bit with the standard's formula old + new;
+//   * kMul, kBlend (both alpha kinds), kMulAdd and the alpha-channel rule are checked against the standard's formulas at
+//     the points where binary32 evaluation is exact and independent of operation order -- alpha (or factor) 0 and 1,
+//     out-of-range alpha with clamp on and off, transparent / opaque lower layer, and each of them with the layers
+//     exchanged (`swapped`) -- for ALL finite values of the remaining operands (`corner_cases`). These points separate
+//     the operands (which sample is upper / lower, whose alpha weights what), the clamp and the premultiplied flag;
+//     they do not pin the rounding of the general case, which is what the fall-back gives up.
+//   * the geometry is a fixed list of concrete rectangles that exercise 0, 1 and 2 iterations of each loop, unequal
+//     offsets on the two sides and grids narrower than the stride; flags, canvas-alpha presence and sample values stay
+//     symbolic and EVERY position of the base buffer is checked (frame condition bit-exact). The loop / index structure
+//     itself is proved for all geometries on the arithmetic-free kernels above and, for kAdd, in kernel_add_all_geometries.
+const GEOM_QUICK: [Geo; 2] = [
+    Geo { bw: 2, bh: 2, nw: 2, nh: 2, bx: 1, by: 0, nx: 0, ny: 1, w: 1, h: 1 }, // one sample, offsets crossed in both axes
+    Geo { bw: 1, bh: 2, nw: 2, nh: 2, bx: 1, by: 1, nx: 1, ny: 0, w: 0, h: 1 }, // empty rectangle at the far edge of a narrow base grid
+];
+const GEOM_WIDE: [Geo; 3] = [
     Geo { bw: 2, bh: 2, nw: 1, nh: 2, bx: 1, by: 0, nx: 0, ny: 0, w: 1, h: 2 }, // a column of two from a narrow new grid, x offsets differ
     Geo { bw: 2, bh: 2, nw: 2, nh: 1, bx: 0, by: 1, nx: 0, ny: 0, w: 2, h: 1 }, // a row of two from a flat new grid, y offsets differ
-    Geo { bw: 1, bh: 2, nw: 2, nh: 2, bx: 1, by: 1, nx: 1, ny: 0, w: 0, h: 1 }, // empty rectangle at the far edge of a narrow base grid
+    Geo { bw: 2, bh: 1, nw: 2, nh: 2, bx: 0, by: 0, nx: 1, ny: 1, w: 1, h: 0 }, // empty rectangle, flat base grid
 ];
 
 /// Sample domain of the arithmetic kernels. The standard's formulas are over the reals; for the straight-alpha
@@ -438,19 +453,27 @@ fn any_samples4(b: SpecChannelBlend) -> [f32; 4] {
     [any_sample(b), any_sample(b), any_sample(b), any_sample(b)]
 }
 
-fn kernel_on_geometries(op: SpecOp, premultiplied: bool, degenerate: bool, exact: bool) {
+fn kernel_on_geometries(op: SpecOp, premultiplied: bool, degenerate: bool, geometries: &[Geo]) {
+    let exact = false;
     let mut gi = 0;
-    while gi < GEOMETRIES.len() {
+    while gi < geometries.len() {
         let b = blend_of(op, premultiplied);
         let have_old: bool = kani::any();
         kani::assume(b.uses_alpha || !have_old);
         let mut k = 0;
         // fresh samples per geometry; every buffer position checked
         let (base, new, base_alpha, new_alpha) = (any_samples4(b), any_samples4(b), any_samples4(b), any_samples4(b));
-        let after = run_kernel(b, degenerate, GEOMETRIES[gi], have_old, base, new, base_alpha, new_alpha);
+        let after = run_kernel(b, degenerate, geometries[gi], have_old, base, new, base_alpha, new_alpha);
         while k < 4 {
-            check_position(b, GEOMETRIES[gi], have_old, exact, (k % STRIDE, k / STRIDE), &base, &after, &new, &base_alpha, &new_alpha);
+            check_position(b, geometries[gi], have_old, exact, (k % STRIDE, k / STRIDE), &base, &after, &new, &base_alpha, &new_alpha);
             k += 1;
+        }
+        // vacuity guards: the kernel ran on a non-empty rectangle and wrote it, with every flag combination reachable
+        let g = geometries[gi];
+        if g.w > 0 && g.h > 0 {
+            let at = g.by * STRIDE + g.bx;
+            kani::cover!(after[at].to_bits() != base[at].to_bits());
+            kani::cover!(after[at].to_bits() != base[at].to_bits() && (b.clamp || op == SpecOp::Add) && (b.swapped || !matches!(op, SpecOp::Blend | SpecOp::MulAdd | SpecOp::BlendAlpha)) && have_old == b.uses_alpha);
         }
         gi += 1;
     }
@@ -465,24 +488,22 @@ fn blend_of(op: SpecOp, premultiplied: bool) -> SpecChannelBlend {
 }
 
 macro_rules! arithmetic_kernel_harnesses {
-    ($($name:ident, $name_exact:ident: $op:expr, $premul:literal, $degenerate:literal;)*) => {
+    ($($name:ident, $name_wide:ident: $op:expr, $premul:literal, $degenerate:literal;)*) => {
         $(
-            /// frame condition + the standard's formulas at the exact points
-            #[kani::proof] #[kani::unwind(8)] fn $name() { kernel_on_geometries($op, $premul, $degenerate, false); }
-            /// additionally bit-exact against spec_blend_pixel
-            #[kani::proof] #[kani::unwind(8)] fn $name_exact() { kernel_on_geometries($op, $premul, $degenerate, true); }
+            #[kani::proof] #[kani::unwind(8)] fn $name() { kernel_on_geometries($op, $premul, $degenerate, &GEOM_QUICK); }
+            #[kani::proof] #[kani::unwind(8)] fn $name_wide() { kernel_on_geometries($op, $premul, $degenerate, &GEOM_WIDE); }
         )*
     };
 }
 
 arithmetic_kernel_harnesses! {
-    kernel_add_contract, kernel_add_exact: SpecOp::Add, false, false;
-    kernel_muladd_no_alpha_contract, kernel_muladd_no_alpha_exact: SpecOp::Add, false, true;
-    kernel_mul_contract, kernel_mul_exact: SpecOp::Mul, false, false;
-    kernel_mix_alpha_contract, kernel_mix_alpha_exact: SpecOp::BlendAlpha, false, false;
-    kernel_muladd_contract, kernel_muladd_exact: SpecOp::MulAdd, false, false;
-    kernel_blend_premultiplied_contract, kernel_blend_premultiplied_exact: SpecOp::Blend, true, false;
-    kernel_blend_straight_contract, kernel_blend_straight_exact: SpecOp::Blend, false, false;
+    kernel_add_contract, kernel_add_wide: SpecOp::Add, false, false;
+    kernel_muladd_no_alpha_contract, kernel_muladd_no_alpha_wide: SpecOp::Add, false, true;
+    kernel_mul_contract, kernel_mul_wide: SpecOp::Mul, false, false;
+    kernel_mix_alpha_contract, kernel_mix_alpha_wide: SpecOp::BlendAlpha, false, false;
+    kernel_muladd_contract, kernel_muladd_wide: SpecOp::MulAdd, false, false;
+    kernel_blend_premultiplied_contract, kernel_blend_premultiplied_wide: SpecOp::Blend, true, false;
+    kernel_blend_straight_contract, kernel_blend_straight_wide: SpecOp::Blend, false, false;
 }
 
 /// all geometries, kAdd (float addition is the one arithmetic kernel that closes with symbolic geometry)
